@@ -336,7 +336,11 @@ func (st *Stack) Promote(src, dst int) error {
 		return err
 	}
 	d.S.SetPreload(false)
+	punch := types.ShouldPunchHoles
 	err := d.S.Reload()
+	// Reload switches reclamation on for the process; in the harness all
+	// replicas share that flag, keep it as the case configured it
+	types.ShouldPunchHoles = punch
 	d.S.SetPreload(true)
 	d.fixDrainer()
 	if err != nil {
